@@ -88,11 +88,28 @@ def register(model, case):
 # ------------------------------------------------------------------------------
 
 
+# the residual functions handed to _fd_matrix silence everything but underflow, which _fd_matrix probes for
+_IGN = dict(divide="ignore", over="ignore", invalid="ignore")
+
+
 def _fd_matrix(func, x0, rel=1e-3):
     """Richardson central FD Jacobian of vector function func at x0; returns (J, err)"""
     x0 = np.asarray(x0, dtype=float)
     f0 = np.asarray(func(x0), dtype=float).ravel()
     n = x0.size
+    # an intermediate result that underflows at x0 (exp(-10006) == 0.0, then 0.0**(c-1) in the derivative) puts the point on the
+    # edge of the floating-point range: the true derivative exists but neither algorithmic differentiation nor finite
+    # differences can represent the computation there; nothing is decided at such a point
+    try:
+        with np.errstate(under="raise"):
+            func(x0)
+    except FloatingPointError:
+        c_ = rt.ctx()
+        if c_ is not None:
+            c_.inconc("fd:evaluation-underflows(edge of the floating-point range)")
+        return np.full((f0.size, n), np.nan), np.zeros((f0.size, n))
+    except Exception:
+        pass
     J = np.zeros((f0.size, n))
     Err = np.zeros((f0.size, n))
     n_kink = 0
@@ -238,7 +255,7 @@ def _check_system(c, model, system, vid, linear, case):
     feats = _features_of_model(model)
 
     def resid(Xa):
-        with np.errstate(all="ignore"):
+        with np.errstate(**_IGN):
             out = equator.eval(Xa, col0)
         return np.array([float(np.ravel(v)[0]) for v in out], dtype=float)
 
@@ -444,7 +461,7 @@ def install():
             try:
                 guess = np.array(guess, dtype=float)
                 def f(z):
-                    with np.errstate(all="ignore"):
+                    with np.errstate(**_IGN):
                         return np.asarray(self.eval_func(z), dtype=float).ravel()
                 f0 = f(guess)
                 if not np.all(np.isfinite(f0)) or np.max(np.abs(f0)) > 1e8:
@@ -552,7 +569,7 @@ def _wrap_stacked(ev, has_terminator, humans):
                 return
             def f(z):
                 arr = base.copy()
-                with np.errstate(all="ignore"):
+                with np.errstate(**_IGN):
                     return np.asarray(orig_f(z, arr), dtype=float).ravel()
             f0 = f(g0)
             if not np.all(np.isfinite(f0)) or np.max(np.abs(f0)) > 1e8:
